@@ -128,7 +128,7 @@ CLAIMED = {
          "the codec model and with the printed precision; Table, imcio matrix and index files likewise.",
          "Lean kernel + three standard axioms; printf/strtod layer modelled as exact rounding (correspondence only); three recorded findings (pdb unreadable, table error column, dump off-diagonal box).",
          "6/C08"),
- "C15": ("Lean 4 proof of polynomial identities over Q (ring) about the interaction polynomials of VSiteA<9> and the Thole tensor + correspondence with the "
+ "C15": ("Lean 4 proof of polynomial identities over Q (ring) about the interaction polynomials of VSiteA<9> (tensor entries regenerated from the source by a translator on every run) and the Thole tensor + correspondence with the "
          "real eeInteractor, with numerical search for the clauses that are not proved",
          "energy_exchange / energySite_exchange (all rank gatings), charges, charge_dipole, dipole_dipole, field_is_dE_dmu, thole_symmetric, "
          "thole_undamped_traceless, thole_large_separation hold for all arguments; tied to the working tree by evaluating CalcStaticEnergy_site, "
